@@ -918,18 +918,11 @@ impl Parse {
         // TODO_ZAIN: Take a look at which hashing function is being used
         let mut hasher = DefaultHasher::new();
 
-        let concatenated = format!(
-            "{}{}{}",
-            self.query,
-            self.num_params,
-            self.param_types
-                .iter()
-                .map(ToString::to_string)
-                .collect::<Vec<_>>()
-                .join(",")
-        );
-
-        concatenated.hash(&mut hasher);
+        // Hash the fields one by one: concatenating them first makes different
+        // statements indistinguishable (the query text can end in digits).
+        self.query.hash(&mut hasher);
+        self.num_params.hash(&mut hasher);
+        self.param_types.hash(&mut hasher);
 
         hasher.finish()
     }
